@@ -5,7 +5,9 @@
    a parameter (the checker reads the names off the observation and validates that sink and
    source of a cut carry the name of the reported CutEdge).
    `stands` records, for the source node created for a cut, the output it stands for: it is
-   what "re-joining along the cut edges" means (sem_rj below).  No proofs in this file. *)
+   what "re-joining along the cut edges" means (sem_rj below).  `rdone` is the engine's `done`
+   dict (input node -> (key, node)): which node of the result is the written version of which
+   input node, and the key it was processed under.  No proofs in this file. *)
 From Coq Require Import List String Bool Arith.
 From EKW Require Import Graph.GStore Graph.Denote Graph.Engine.
 Import ListNotations.
@@ -83,16 +85,17 @@ Record splitres := mkR {
   rparts : list (K * list nat);       (* {k: Graph(s)} in dict order *)
   rcuts : list cutedge;
   rpairs : list (nat * nat);
-  rstands : list (nat * (nat * string)) }.
+  rstands : list (nat * (nat * string));
+  rdone : list (nat * (K * nat)) }.           (* ghost: input node -> (key it was filed under, its version in rheap) *)
 
 (* def graph(self, graph, sinks) *)
-Definition split_finish (st : sstate) (rs : list (K * nat)) : splitres :=
+Definition split_finish (st : sstate) (rs : list (K * nat)) (done : list (nat * (K * nat))) : splitres :=
   mkR (sheap st) (fold_left (fun l kr => add_sink (fst kr) (snd kr) l) rs (ssinks st))
-      (scuts st) (spairs st) (stands st).
+      (scuts st) (spairs st) (stands st) done.
 
-Definition split_graph (g : graph P) : res splitres :=
+Definition split_graph_k (g : graph P) : res splitres :=
   bind (transform split_visit split_output (heap g) (sinks g) (mkS [] [] [] [] []))
-       (fun x => Ok (split_finish (fst (fst x)) (snd (fst x)))).
+       (fun x => Ok (split_finish (fst (fst x)) (snd (fst x)) (snd x))).
 
 End Split.
 
@@ -102,8 +105,29 @@ Arguments mkS {P K}. Arguments sheap {P K}. Arguments scuts {P K}. Arguments ssi
 Arguments spairs {P K}. Arguments stands {P K}.
 Arguments add_sink {K}. Arguments cut_inputs {P K}. Arguments split_visit {P K}.
 Arguments split_output {P K}. Arguments mkR {P K}. Arguments rheap {P K}. Arguments rparts {P K}.
-Arguments rcuts {P K}. Arguments rpairs {P K}. Arguments rstands {P K}.
-Arguments split_finish {P K}. Arguments split_graph {P K}.
+Arguments rcuts {P K}. Arguments rpairs {P K}. Arguments rstands {P K}. Arguments rdone {P K}.
+Arguments split_finish {P K}. Arguments split_graph_k {P K}.
+
+(* split_graph(key, graph).  The key callback is handed a Node OBJECT and may follow its inputs
+   (`n.inputs[..].parent`): it is a function of a node AND the heap the node's inputs point
+   into.  The Splitter calls it once per node, when the node is visited, i.e. BEFORE
+   `node.inputs = new_inputs` (split.py:60): the node still has the inputs of the input
+   graph.  Its parents have been written by then (their inputs may be cut sources), but a
+   parent's name, outputs, payload and the number and names of its inputs are never written
+   by the Splitter: for every key that reads the node itself and, of its DIRECT inputs, only
+   those fields, the value is `key (heap g) nd`, the key of the node in the input graph.
+   (A key that walks further up reads a graph that is partly split already; the harness
+   runs such keys against the property oracle only.)
+   Evaluating the key later -- on the written node, `key (sheap st) new_version` -- is a
+   different function as soon as the key reads inputs: late_key below, kept to state what
+   the model distinguishes (Props/C11.v, C11_split_key_time_matters). *)
+Definition split_graph {P K} (keqb : K -> K -> bool) (key : list (node P) -> node P -> K)
+           (cut_name : cutedge K -> string) (g : graph P) : res (splitres P K) :=
+  split_graph_k keqb (key (heap g)) cut_name g.
+
+(* the key of an input node evaluated AFTER the split, on the version written into the result heap *)
+Definition late_key {P K} (key : list (node P) -> node P -> K) (r : splitres P K) (x : nat) : option K :=
+  option_map (key (rheap r)) (nth_error (rheap r) x).
 
 (* ------------------------------------------------------------------ re-joining *)
 (* The parts re-joined along the cut edges: the source node created for a cut denotes the
